@@ -135,6 +135,23 @@ class World:
             todo.extend(state[n]['kids'] if n in state else [])
         return seen
 
+    def reopen_same(self):
+        """close the connection and get THE SAME connection object back from the pool (the pool hands out
+        the available connection with the warmest cache first, which may be another one)"""
+        old = self.conn
+        old.close()
+        others = []
+        while True:
+            c = self.db.open(self.tm)
+            if c is old:
+                break
+            others.append(c)
+            if len(others) > 8:
+                raise RuntimeError('the closed connection does not come back from the pool')
+        for c in others:
+            c.close()
+        self.conn = old
+
     def close(self):
         try:
             self.tm.abort()
@@ -418,18 +435,16 @@ def run_program(kind, prog, cases):
                 elif op == 'close-inside':
                     joined = not w.conn._needs_to_join
                     try:
-                        w.conn.close()
+                        w.reopen_same()
                         if joined:
                             return fail(inp, 'close refused inside a transaction', label + ': closed', cases)
-                        w.conn = w.db.open(w.tm)
                     except POSException.ConnectionStateError:
                         if not joined:
                             return fail(inp, 'close allowed outside a transaction', label + ': refused', cases)
                 elif op == 'reopen':
                     w.tm.abort()
                     w.begin()
-                    w.conn.close()
-                    w.conn = w.db.open(w.tm)
+                    w.reopen_same()
                     boundary = True
                 elif op == 'add-refused':
                     tm2 = transaction.TransactionManager(explicit=True)
